@@ -178,6 +178,11 @@ impl Gen<'_> {
         }
     }
     fn val(&mut self) -> B {
+        // mostly from a tiny pool, so that writing a key BACK to the value it has underneath (byte for byte)
+        // after an overwrite or a removal is common: the shape a "skip no-op writes" optimisation gets wrong
+        if self.rng.chance(7, 8) {
+            return self.rng.pick(&[vec![1u8], vec![2], vec![7]]).clone();
+        }
         let n = 1 + self.rng.below(2) as usize;
         (0..n).map(|_| self.rng.below(256) as u8).collect()
     }
@@ -288,6 +293,7 @@ fn exhaustive(out: &mut Out, ks: &[B], n: usize) {
     let mut writes: Vec<Op> = vec![];
     for k in ks {
         writes.push(Op::Set(k.clone(), vec![7]));
+        writes.push(Op::Set(k.clone(), vec![1])); // the value the base holds for every second key
         writes.push(Op::Del(k.clone()));
     }
     // base: every second key present
